@@ -281,14 +281,14 @@ theorem conv : (t : HType) → WF t → Conv t
     have hck := conv k hwf'.1
     have hcv := conv v hwf'.2
     have ht' : ∀ p ∈ es, HasType k p.1 ∧ HasType v p.2 := by simpa [HasType] using ht
-    have hok' : ∀ p ∈ es, JsonOK k p.1 ∧ JsonOK v p.2 ∧ (p.1 = .na → primNone k = true) ∧ (p.2 = .na → primNone v = true) := by
+    have hok' : ∀ p ∈ es, JsonOK k p.1 ∧ JsonOK v p.2 := by
       simpa [JsonOK] using hok
     obtain ⟨js, h1, h2⟩ := mapOpt_roundtrip (dictEntryToJson (toJson k) (toJson v))
       (dictEntryOfJson (fromJson k) (fromJson v)) (fun p => (cOrder p.1, cOrder p.2)) es
       (fun p hp => by
-        obtain ⟨jk, hk1, hk2⟩ := dictside_of_conv k hck p.1 (ht' p hp).1 (hok' p hp).1 (hok' p hp).2.2.1
-        obtain ⟨jv, hv1, hv2⟩ := dictside_of_conv v hcv p.2 (ht' p hp).2 (hok' p hp).2.1 (hok' p hp).2.2.2
-        refine ⟨.obj [(cp% "key", jk), (cp% "value", jv)], by simp [dictEntryToJson, hk1, hv1], ?_⟩
+        obtain ⟨jk, hk1, hk2⟩ := na_of_conv k hck p.1 (ht' p hp).1 (hok' p hp).1
+        obtain ⟨jv, hv1, hv2⟩ := na_of_conv v hcv p.2 (ht' p hp).2 (hok' p hp).2
+        refine ⟨.obj [(cp% "key", jk), (cp% "value", jv)], by simp only [dictEntryToJson, toJsonNa_eq, hk1, hv1], ?_⟩
         simp only [dictEntryOfJson, (lookup_key_value jk jv).1, (lookup_key_value jk jv).2, fromJsonNa_eq, hk2, hv2])
     refine ⟨.arr js, ?_, by simp, ?_⟩
     · simp only [toJson]; simp [h1]
